@@ -597,7 +597,7 @@ func runFileConcurrency(env *ShardEnv, rep *ShardReport) {
 	}
 	n := 0
 	for _, it := range items {
-		if it.Mode != "pause-sys" {
+		if it.Mode != "pause-sys" && it.Mode != "two-writers-one-process" {
 			continue
 		}
 		n++
